@@ -10,6 +10,9 @@
          literally [decoded]).
    CDec: a real decoder accepted or rejected [input]; the model's checks must agree.
    CFields: the leaf paths of a real struct as reflect sees them; must be the generated ones.
+   CDisk: a history of operations on one REAL key file store (key.NewFileStore: SaveKeyPair /
+         SaveShare / SaveGroup / Load* / Reset) and what each load returned: the number of the
+         value it equals, -2 if it equals none of the values saved so far, None on error.
    Durations are printed / parsed by the real library: the table [durs] is the oracle. *)
 From Coq Require Import String ZArith List Bool.
 From DV Require Import Model.ByteEnc Model.CodecVocab Model.Codec Gen.Mirrors Corr.CorrBase.
@@ -21,7 +24,8 @@ Inductive ccase :=
 | CRt (a b : string) (durs : list (Z * bytes)) (input decoded : record)
 | CPair (a b : string) (durs : list (Z * bytes)) (input mid decoded : record) (rts : list record)
 | CDec (name : string) (durs : list (Z * bytes)) (good_addrs : list bytes) (hs : bytes) (input : record) (accepted : bool)
-| CFields (typ : string) (leaves : list path).
+| CFields (typ : string) (leaves : list path)
+| CDisk (ops : list dop) (loads : list (option Z)).
 
 Definition ds_of (durs : list (Z * bytes)) (d : Z) : bytes :=
   match find (fun p => fst p =? d) durs with Some p => snd p | None => [] end.
@@ -86,6 +90,14 @@ Definition ok (c : ccase) : bool :=
       | Some _ => accepted
       | None => negb accepted
       end
+  | CDisk ops loads =>
+      (fix eq (a b : list (option Z)) : bool :=
+         match a, b with
+         | [], [] => true
+         | Some x :: a', Some y :: b' => (x =? y) && eq a' b'
+         | None :: a', None :: b' => eq a' b'
+         | _, _ => false
+         end) (snd (disk_run disk_init ops)) loads
   | CFields typ leaves =>
       existsb (fun d => (String.eqb (m_src_type d) typ && paths_eqb (m_src_leaves d) leaves)
                         || (String.eqb (m_dst_type d) typ && paths_eqb (m_dst_leaves d) leaves)) mirrors
